@@ -7,7 +7,7 @@ QmcProofs/SamplerBridge.lean) because no file could import both sides. The bridg
 them); this file makes the direct statements available. Namespace `Qmc.Composed`.
 
 §0  the two vocabularies are the same: `maskConfig = mask`, `ratAbs = absR`, `twoSite`/`longitudinal` =
-    `twoSiteW`/`longitudinalW` (the latter on the diagonal only!), `IsingSpec.ham` vs `isingClusterHam`, `HamWF = VarsOK`, `C04.LoopClosed = Refine.LoopClosed`.
+    `twoSiteW`/`longitudinalW` (all entries), `IsingSpec.ham` vs `isingClusterHam`, `HamWF = VarsOK`, `C04.LoopClosed = Refine.LoopClosed`.
 §1  C09 ∘ C06/C07: the exact cluster update is a `SpinFlipStep` / `Step` and keeps `Consistent ∧ Legal`
     (`clusterUpdate_is_step`; announced in design_notes/Refinement.md).
 §2  whole time steps with the exact kernels plugged in (`isingTimestep_pres`, `isingTrace_inv`, `isingRun_inv`,
@@ -40,20 +40,14 @@ theorem twoSite_eq_twoSiteW (i o : List Bool) (J : Rat) : twoSite i o J = twoSit
     simp only [twoSite, twoSiteW]
   cases a <;> cases b <;> cases d <;> cases e <;> simp [ratAbs_eq_absR]
 
-/-- `longitudinal_hamiltonian` of IsingHam.lean and of Cluster.lean agree ON THE DIAGONAL … -/
-theorem longitudinal_eq_longitudinalW_diag (i : List Bool) (h : Rat) : longitudinal i i h = longitudinalW h i i := by
-  rcases i with _ | ⟨a, _ | ⟨b, i⟩⟩ <;> simp only [longitudinal, longitudinalW]
-  cases a <;> simp [ratAbs_eq_absR, Rat.sub_eq_add_neg]
+/-- `longitudinal_hamiltonian` of IsingHam.lean and of Cluster.lean agree on EVERY entry (since Cluster.lean's copy
+was brought in line with the fix 9464564 (F15): `0` off the diagonal) -/
+theorem longitudinal_eq_longitudinalW (i o : List Bool) (h : Rat) : longitudinal i o h = longitudinalW h i o := by
+  rcases i with _ | ⟨a, _ | ⟨b, i⟩⟩ <;> rcases o with _ | ⟨c, _ | ⟨d, o⟩⟩ <;> simp only [longitudinal, longitudinalW]
+  cases a <;> cases c <;> simp [ratAbs_eq_absR, Rat.sub_eq_add_neg]
 
-/-- … and DIFFER off it: Cluster.lean's copy still has the matrix element `|h|` that the source had before the fix
-9464564 (F15), IsingHam.lean has the current `0`. (Known and documented: `longitudinalW_agree_diag` in
-QmcProofs/PureFnsAgreeCluster.lean; no sampler path reads those entries — a longitudinal bond is only ever
-inserted as a diagonal operator and is frozen in the cluster update. Visible as a Lean statement only now that both
-files can be imported together.) Consequently `IsingSpec.ham` and `isingClusterHam` are NOT equal as functions,
-and §3 below is proved for `IsingSpec.ham` directly, not by rewriting `Kernel.ising_timestep_invariant`. -/
-theorem longitudinal_ne_longitudinalW_offdiag :
-    longitudinal [true] [false] 1 = 0 ∧ longitudinalW 1 [true] [false] = 1 := by
-  constructor <;> simp [longitudinal, longitudinalW, absR]
+theorem longitudinal_eq_longitudinalW_diag (i : List Bool) (h : Rat) : longitudinal i i h = longitudinalW h i i :=
+  longitudinal_eq_longitudinalW i i h
 
 /-- the edge list of an `IsingSpec` in the format of `isingClusterHam` -/
 def clusterEdges (s : IsingSpec) : List (List Nat × Rat) := s.edges.map fun e => ([e.1, e.2.1], e.2.2)
